@@ -165,3 +165,29 @@ Proof.
   unfold copy_isolated. rewrite Hr, Hd, Hl, Ht.
   destruct (depth_limit g <? copy_depth c2)%Z; simpl; auto.
 Qed.
+
+(** * The loop helper variables *)
+
+(** The helper variables of one forloop object are consistent with each other:
+    index = index0 + 1, rindex = rindex0 + 1, index0 + rindex = length,
+    first iff index0 = 0, last iff rindex0 = 0.  ([for_iter_cons] shows that the
+    k-th item of a loop is rendered with index0 = k and the loop's length.) *)
+Theorem forloop_helper_laws name len idx parent :
+  let fl := VForLoop name len idx parent in
+  exists i i0 r r0 f la,
+    raw_getitem fl (VStr s_index) = GOk (VInt i) /\
+    raw_getitem fl (VStr s_index0) = GOk (VInt i0) /\
+    raw_getitem fl (VStr s_rindex) = GOk (VInt r) /\
+    raw_getitem fl (VStr s_rindex0) = GOk (VInt r0) /\
+    raw_getitem fl (VStr s_length) = GOk (VInt len) /\
+    raw_getitem fl (VStr s_first) = GOk (VBool f) /\
+    raw_getitem fl (VStr s_last) = GOk (VBool la) /\
+    raw_getitem fl (VStr s_name) = GOk (VStr name) /\
+    raw_getitem fl (VStr s_parentloop) = GOk parent /\
+    i0 = idx /\ i = (i0 + 1)%Z /\ r = (r0 + 1)%Z /\ (i0 + r)%Z = len /\
+    f = (i0 =? 0)%Z /\ la = (r0 =? 0)%Z.
+Proof.
+  cbv zeta.
+  exists (idx + 1)%Z, idx, (len - idx)%Z, (len - idx - 1)%Z, (idx =? 0)%Z, (idx =? len - 1)%Z.
+  repeat split; try reflexivity; try lia.
+Qed.
